@@ -1,5 +1,6 @@
 import HidVerif.Proofs.SourceLaws
 import HidVerif.Proofs.Terminal
+import HidVerif.Proofs.CoreMain
 /-!
 # C02 — try/undo, try/stop, preempt and `??` follow their time-travel semantics
 
@@ -56,5 +57,62 @@ theorem interp_verdict_sound (E : Env) (fuel : Nat) (c₀ : Cfg) :
 hypothesis of `undo_law` -/
 example : ({ ctl := .exec (.tryb (.block []) .undo (.block [])) } : Cfg).ctl =
     .exec (.tryb (.block []) .undo (.block [])) := rfl
+
+/-! ## try/undo in compiled code: proved for the core
+
+The core sub-language (see `C01`) includes `try { … } undo { … }` in the you function, with
+`!is_defeat()` and `!truth_is_defeat(c)` inside the try body.  Its source semantics `Core.exec`
+says what the language says: -/
+
+/-- a try body that would be defeated is never run — none of its output, none of its assignments —
+and the handler runs from the state before the `try` -/
+theorem undo_source_law (M n f : Nat) (env env1 : Core.Env) (tr1 : List Ev) (body handler k : Core.S)
+    (hb : Core.exec M n f env body = some (env1, tr1, .defeat)) :
+    Core.exec M n (f + 1) env (.tryUndo body handler k) =
+      (do let (env2, tr2, r2) ← Core.exec M n f env handler
+          if r2 = .norm then
+            let (env3, tr3, r3) ← Core.exec M n f env2 k
+            pure (env3, tr2 ++ tr3, r3)
+          else pure (env2, tr2, r2)) := by
+  simp [Core.exec, hb]
+
+/-- a try body that completes is committed, and the handler is skipped -/
+theorem try_ok_source_law (M n f : Nat) (env env1 : Core.Env) (tr1 : List Ev) (body handler k : Core.S)
+    (hb : Core.exec M n f env body = some (env1, tr1, .norm)) :
+    Core.exec M n (f + 1) env (.tryUndo body handler k) =
+      (do let (env3, tr3, r3) ← Core.exec M n f env1 k
+          pure (env3, tr1 ++ tr3, r3)) := by
+  simp [Core.exec, hb]
+
+/-- **C02 (try/undo) on the core**: the emitted code — one Turing jump over the body, conditional
+halts for the defeat calls — realises exactly that semantics on the committed timeline, for
+every core program (any nesting of blocks, conditionals and loops inside and around the `try`),
+every word size, stack size and build mode.  (`Core.coreProg` is checked on every run to be
+identical to the real compiler's output, and `Core.exec` to agree with the reference machine.) -/
+theorem core_try_undo_correct (cf : Core.Config) (body : Core.S) (hw : 2 ≤ cf.w)
+    (hB : Core.funcLen cf.checked body + Gen.stdlibLength < 256 ^ cf.w)
+    (hSE : 5 * cf.w + cf.stackWords * cf.w + cf.w < 256 ^ cf.w)
+    (hwf : Core.wfS [] body = true) (hyl : Core.youLevel body = true)
+    (fuel : Nat) (env' : Core.Env) (tr : List Ev) (res : Core.Res)
+    (hex : Core.exec (256 ^ cf.w) (8 * cf.w) fuel (fun _ => 0) body = some (env', tr, res))
+    (hck : res = .div0 → cf.checked = true)
+    (hroom : Core.pkS cf.w cf.w body ≤ (cf.stackWords + 1) * cf.w) :
+    ∃ mEnd, Exec (Sphinx.sphinx (Core.coreProg cf body)) (Core.coreInit cf body) (tr ++ Core.terminalEvs res)
+        ⟨Sphinx.tntPc (Core.funcLen cf.checked body), mEnd⟩ ∧
+      ¬ Halts (Sphinx.sphinx (Core.coreProg cf body)) (Core.coreInit cf body) :=
+  Core.core_correct cf body hw hB hSE hwf hyl fuel env' tr res hex hck hroom
+
+/-- non-vacuity: a program whose try body prints `A`, assigns, is then defeated and undone: the
+committed output is `U` (handler) and `Y` (the assignment did not happen) -/
+example :
+    let body : Core.S :=
+      .decl "x" (.lit 5)
+        (.tryUndo (.putc 65 (.assign "x" (.lit 9) (.defeatIf (.cmp .gt (.var "x") (.lit 5)) .nil)))
+                  (.putc 85 .nil)
+          (.ifb (.cmp .eq (.var "x") (.lit 5)) (.putc 89 .nil) (.putc 78 .nil) .ret))
+    Core.wfS [] body = true ∧ Core.youLevel body = true ∧
+    (Core.exec (256 ^ 2) 16 12 (fun _ => 0) body).map (fun r => (r.2.1, r.2.2)) =
+      some ([Ev.out 85, Ev.out 89], .returned) := by
+  refine ⟨by decide, by decide, by decide⟩
 
 end HidVerif.Props.C02
